@@ -208,7 +208,7 @@ func runCheck(root, repo string, spec *CheckSpec, tier string, seed int, only st
 	var runs []*unitRun
 	var inconclusive []string
 	for _, u := range spec.Units {
-		hdir := filepath.Join(root, u.Harness)
+		hdir := harnessDirs(root, u.Harness)
 		ov, err := HarnessOverlay(repo, u.Dir, hdir, true)
 		if err != nil {
 			fmt.Fprintln(os.Stderr, err)
@@ -383,7 +383,7 @@ func replayNative(root, repo string, u *UnitSpec, cexPaths []string) ([]string, 
 		return nil, err
 	}
 	defer os.RemoveAll(tmp)
-	hdir := filepath.Join(root, u.Harness)
+	hdir := harnessDirs(root, u.Harness)
 	ov, err := HarnessOverlay(repo, u.Dir, hdir, false)
 	if err != nil {
 		return nil, err
@@ -598,4 +598,12 @@ func writeEvidence(root string, spec *CheckSpec, tier string, seed int, runs []*
 	os.MkdirAll(filepath.Join(root, "evidence"), 0o755)
 	b, _ := json.MarshalIndent(ev, "", " ")
 	os.WriteFile(filepath.Join(root, "evidence", spec.ID+".json"), b, 0o644)
+}
+
+func harnessDirs(root, spec string) string {
+	var out []string
+	for _, d := range strings.Split(spec, ",") {
+		out = append(out, filepath.Join(root, strings.TrimSpace(d)))
+	}
+	return strings.Join(out, ",")
 }
